@@ -9,6 +9,8 @@
 (*             (groups first, then locations), in dictionary order           *)
 (*   Del       del target_dict[list_name] for the next emptied entry         *)
 (*   Add       target_dict[name].add(..) / target_dict[name] = SortedList(..)*)
+(*   then _garbage_collect(): Rm/Del over groups and locations for every     *)
+(*   expired light, and DropName (self._light_names.remove) for each         *)
 (* and then the next light of the discovery, in the order get_lights()       *)
 (* returned them.  Dictionaries are sequences of [k, m] in insertion order.  *)
 (* A reader's call (get_light_names, get_group_names, get_group_lights(g),   *)
@@ -42,8 +44,12 @@ View(d) == {<<d[j].k, d[j].m>> : j \in DOMAIN d}
 Keys(d) == {d[j].k : j \in DOMAIN d}
 Entry(d, k) == CHOOSE j \in DOMAIN d : d[j].k = k
 
-X == Sc.order[pc.i]
-IsG == pc.ph \in {"rmG", "delG", "addG"}
+InGc == pc.ph \in {"xrmG", "xdelG", "xrmL", "xdelL", "xname"}
+X == IF InGc THEN Sc.expired[pc.i] ELSE Sc.order[pc.i]
+IsG == pc.ph \in {"rmG", "delG", "addG", "xrmG", "xdelG"}
+\* after the discovery: _garbage_collect() - each expired light (Sc.expired, in _lights order) is taken out of every
+\* group, then of every location; afterwards the expired names leave the name list one by one
+GcStart == IF Len(Sc.expired) > 0 THEN [i |-> 1, ph |-> "xrmG", j |-> 1, del |-> <<>>] ELSE [i |-> 1, ph |-> "end", j |-> 1, del |-> <<>>]
 Cur == IF IsG THEN gd ELSE ld
 Put(d) == IF IsG THEN gd' = d /\ UNCHANGED ld ELSE ld' = d /\ UNCHANGED gd
 Target == IF IsG THEN Sc.newg[pc.i] ELSE Sc.newl[pc.i]
@@ -52,19 +58,24 @@ AddName == /\ pc.ph = "name"
            /\ names' = names \cup {X}
            /\ pc' = [pc EXCEPT !.ph = "rmG", !.j = 1, !.del = <<>>]
            /\ UNCHANGED <<gd, ld>>
-Rm == /\ pc.ph \in {"rmG", "rmL"}
+Rm == /\ pc.ph \in {"rmG", "rmL", "xrmG", "xrmL"}
       /\ IF pc.j <= Len(Cur)
          THEN LET d2 == [Cur EXCEPT ![pc.j].m = @ \ {X}]
               IN  /\ Put(d2)
                   /\ pc' = [pc EXCEPT !.j = @ + 1, !.del = IF d2[pc.j].m = {} THEN Append(@, d2[pc.j].k) ELSE @]
-         ELSE /\ pc' = [pc EXCEPT !.ph = IF IsG THEN "delG" ELSE "delL"]
+         ELSE /\ pc' = [pc EXCEPT !.ph = CASE pc.ph = "rmG" -> "delG" [] pc.ph = "rmL" -> "delL"
+                                           [] pc.ph = "xrmG" -> "xdelG" [] pc.ph = "xrmL" -> "xdelL"]
               /\ UNCHANGED <<gd, ld>>
       /\ UNCHANGED names
-Del == /\ pc.ph \in {"delG", "delL"}
+Del == /\ pc.ph \in {"delG", "delL", "xdelG", "xdelL"}
        /\ IF pc.del # <<>>
           THEN /\ Put(SelectSeq(Cur, LAMBDA e : e.k # Head(pc.del)))
                /\ pc' = [pc EXCEPT !.del = Tail(@)]
-          ELSE /\ pc' = [pc EXCEPT !.ph = IF IsG THEN "addG" ELSE "addL"]
+          ELSE /\ pc' = CASE pc.ph = "delG" -> [pc EXCEPT !.ph = "addG"]
+                          [] pc.ph = "delL" -> [pc EXCEPT !.ph = "addL"]
+                          [] pc.ph = "xdelG" -> [pc EXCEPT !.ph = "xrmL", !.j = 1, !.del = <<>>]
+                          [] pc.ph = "xdelL" -> IF pc.i < Len(Sc.expired) THEN [i |-> pc.i + 1, ph |-> "xrmG", j |-> 1, del |-> <<>>]
+                                                ELSE [i |-> 1, ph |-> "xname", j |-> 1, del |-> <<>>]
                /\ UNCHANGED <<gd, ld>>
        /\ UNCHANGED names
 Add == /\ pc.ph \in {"addG", "addL"}
@@ -73,9 +84,13 @@ Add == /\ pc.ph \in {"addG", "addL"}
           ELSE Put(Append(Cur, [k |-> Target, m |-> {X}]))
        /\ pc' = IF IsG THEN [pc EXCEPT !.ph = "rmL", !.j = 1, !.del = <<>>]
                 ELSE IF pc.i < Len(Sc.order) THEN [i |-> pc.i + 1, ph |-> "name", j |-> 1, del |-> <<>>]
-                ELSE [i |-> pc.i, ph |-> "end", j |-> 1, del |-> <<>>]
+                ELSE GcStart
        /\ UNCHANGED names
-Refresher == (AddName \/ Rm \/ Del \/ Add) /\ UNCHANGED <<rec, l, st>>
+DropName == /\ pc.ph = "xname"
+            /\ names' = names \ {X}
+            /\ pc' = IF pc.i < Len(Sc.expired) THEN [pc EXCEPT !.i = @ + 1] ELSE [i |-> 1, ph |-> "end", j |-> 1, del |-> <<>>]
+            /\ UNCHANGED <<gd, ld>>
+Refresher == (AddName \/ Rm \/ Del \/ Add \/ DropName) /\ UNCHANGED <<rec, l, st>>
 
 \* ---- what a reader's call answers in the current state --------------------------------
 None == <<-1>>
@@ -104,7 +119,7 @@ Next == (st = "run" /\ Refresher) \/ Read \/ Finish
 Spec == Init /\ [][Next]_vars
 
 \* ---- properties ------------------------------------------------------------------------
-TypeOK == /\ st \in {"run", "done"} /\ pc.ph \in {"name", "rmG", "delG", "addG", "rmL", "delL", "addL", "end"}
+TypeOK == /\ st \in {"run", "done"} /\ pc.ph \in {"name", "rmG", "delG", "addG", "rmL", "delL", "addL", "xrmG", "xdelG", "xrmL", "xdelL", "xname", "end"}
           /\ \A j \in DOMAIN gd : gd[j].m \subseteq names \cup SetOf(Sc.names0)
 \* holds: every key appears once; after the refresher has finished the directory is the atomic Discover's
 UniqueKeys == Cardinality(Keys(gd)) = Len(gd) /\ Cardinality(Keys(ld)) = Len(ld)
